@@ -10,6 +10,7 @@ GOENV = dict(os.environ, GOFLAGS="-mod=mod", GOPROXY="off", GOSUMDB="off", GOTOO
 FORBIDDEN = re.compile(r"\b(Admitted|admit|Axiom|Axioms|Parameter|Parameters|Conjecture|Conjectures|"
                        r"Admit Obligations|Unset Guard Checking|bypass_check|Unset Positivity Checking|"
                        r"Unset Universe Checking|native_compute)\b")
+NATIVE_REPLAY = {"pathstr"}
 KERNEL = "Coq 8.16.1 kernel incl. vm_compute (no native_compute); full .vo build with coqc/make, no -vos"
 
 
@@ -104,7 +105,7 @@ def coq_property_file(pid, extra_q=()):
         res["output"] = "missing"
         return res
     txt = open(src).read()
-    res["theorems"] = re.findall(r"^(?:Theorem|Example|Lemma|Corollary)\s+(\w+)", txt, flags=re.M)
+    res["theorems"] = re.findall(r"^\s*(?:Theorem|Example|Lemma|Corollary)\s+(\w+)", txt, flags=re.M)
     tmp = os.path.join(BUILD, "props")
     os.makedirs(tmp, exist_ok=True)
     cmd = ["timeout", "1200", "coqc", "-Q", os.path.join(COQ, "theories"), "Ygot"]
@@ -286,6 +287,20 @@ def main(argv):
     spec = PROPS[pid]
     seed = int(os.environ.get("VERIF_SEED") or 1)
     tier = args.tier
+    replay_sig = None
+    if args.replay:
+        try:
+            rp = json.load(open(args.replay))
+        except Exception as e:
+            print("cannot read replay file:", e)
+            return 2
+        # streams with native single-case replay take the file; for the others the replay is the
+        # (seed, tier) that produced the failing input: the stream is re-run deterministically and
+        # only findings with the recorded signature count
+        if rp.get("stream") not in NATIVE_REPLAY:
+            seed = int(rp.get("seed", seed))
+            tier = rp.get("tier", tier)
+            replay_sig = rp.get("signature")
     t0 = time.time()
     os.makedirs(os.path.join(VERIF, "evidence"), exist_ok=True)
     os.makedirs(os.path.join(VERIF, "replays"), exist_ok=True)
@@ -340,7 +355,7 @@ def main(argv):
             key = tree_key()
             for st in spec["streams"]:
                 n = st["n"][tier]
-                if args.replay:
+                if args.replay and replay_sig is None and st["name"] in NATIVE_REPLAY:
                     r = run_stream(st["name"], 1, tier, seed, os.path.join(BUILD, "work", "replay-" + st["name"]),
                                    replay=os.path.abspath(args.replay), extra_q=spec.get("extra_q", ()))
                 else:
@@ -372,6 +387,8 @@ def main(argv):
         for f in (s.get("findings") or []):
             sig = f["signature"]
             if want is not None and not any(sig == w or sig.startswith(w + "/") or sig.startswith(w) for w in want):
+                continue
+            if replay_sig is not None and sig != replay_sig:
                 continue
             k = match_known(known, pid, sig)
             if k:
